@@ -98,12 +98,12 @@ claim("C20",
 
 claim("C17",
   "Real SessionManager.background (one watcher goroutine per pool), streamPool.close/getOrOpenStream, SessionManager.Close/GetStream/PutBack, Session.Close/onRemoteClose and - for the interplay with hot restart - handleHotRestart, handleSessionManagerHotRestart, SessionManager.checkHotRestart, executed symbolically with the goroutines as coroutines (run until blocked; timers fire only when nobody can proceed) over histories of 1-3 events on 1-2 pools: a session is lost while the server answers after 0-2 refused attempts; the server goes down and a session is lost (retries continue, calls fail); the server comes back; hot restart reaching all or some of the live sessions followed by the old server dropping the old sessions in either order; manager Close at any point (also during a rebuild against an unreachable server, and while a replacement session is being established: the stub then takes time). Oracle: a lost session is replaced by a live one of the current epoch after exactly fails+1 attempts, GetStream fails (never hangs) while there is none and works again afterwards, other pools are untouched, pools replaced by hot restart are not rebuilt again, Close returns, closes every session and nothing is rebuilt afterwards.",
-  "ONE schedule per history: goroutines run round-robin until each blocks, a time-out or Sleep only fires when no party can proceed (at most 12 firings per scheduler run); the harness' events fall between such quiescent points, NOT in the middle of a watcher's step; newClientSession is a stub (reachability of the real server, dialling, the handshake are not part of this check); context.WithCancel is a stub with the documented contract; epochs are concrete (0 and 7); elapsed time ('after the rebuild interval') is not measured",
+  "TWO schedules per history (round-robin order, rotated): goroutines run until each blocks, a time-out or Sleep only fires when no party can proceed (at most 12 firings per scheduler run); the harness' events fall between such quiescent points, NOT in the middle of a watcher's step; newClientSession is a stub (reachability of the real server, dialling, the handshake are not part of this check); context.WithCancel is a stub with the documented contract; epochs are concrete (0 and 7); elapsed time ('after the rebuild interval') is not measured",
   "DESIGN.md 15.3/C17")
 
 claim("C12",
   "Real newSession on both ends - memfd client (protocol 3) and /dev/shm file client (protocol 2) against the current server: initMemManager, initProtocol with its goroutine and InitializeTimeout, getProtocolInitializer (version announcement and answer), protocolInitializerV3 client/server, sendMemFdToPeer / handleShareMemoryByMemFd (metadata, ready-ack, descriptor passing, mapping, final ack), protocolInitializerV2 with sendShareMemoryByFilePath / handleShareMemoryByFilePath, createQueueManager / mappingQueueManager / getGlobalBufferManager (file back-end over a named-file OS model), blockReadFull/blockWriteFull, and newSession's failure clean-up, executed symbolically with every goroutine as a coroutine over a socket model (two blocking byte FIFOs + a FIFO of passed descriptors; the kernel takes writes whole or in pieces of 3/6 bytes) and the memfd/mmap OS model. Variants: client and server in one process (shared buffer-manager table, as in the repository's tests; natively replayable) and as two processes (each party has its own table: the server maps the buffer memory itself). Faults: one end stops answering in front of its k-th socket call (k = 0..7, either end); the n-th Fstat/Stat/Mmap call of the run fails (n = 1..6). Oracle: both calls return; both succeed with the same version (3 for the memfd client, 2 for the file client), both ends map the very same queue and buffer memory, what one end enqueues the other dequeues, or both fail (the end that stopped answering after the other end's last step may fail alone) and no mapping, descriptor or file is left. One genuine defect found and fixed (F-HSLEAK: descriptors/mappings left behind when setting up the memory fails half-way); KNOWN FINDING F-V2NOACK (the protocol 2 client succeeds without waiting for the server).",
-  "the parties interact only through blocking FIFO operations (a Kahn network: one schedule stands for all), time-outs fire only when no party can proceed and never race with a late answer; file back-end cases and two-process cases are reported at model level (no native counterpart); NOT covered: tcp, older servers (maxSupportProtoVersion is a constant of the code), a peer that dies (closes the socket) or sends garbage (C13 covers post-handshake events only), wall-clock time, kernel aliasing of MAP_SHARED pages and real descriptor passing (OS model: mapping the same file yields the same region), the descriptor obtained from getConnDupFd; VerifyConfig is stubbed (small configuration)",
+  "the parties interact only through blocking FIFO operations (a Kahn network: one schedule stands for all; two rotations of the round-robin order are run), time-outs fire only when no party can proceed and never race with a late answer; file back-end cases and two-process cases are reported at model level (no native counterpart); NOT covered: tcp, older servers (maxSupportProtoVersion is a constant of the code), a peer that dies (closes the socket) or sends garbage (C13 covers post-handshake events only), wall-clock time, kernel aliasing of MAP_SHARED pages and real descriptor passing (OS model: mapping the same file yields the same region), the descriptor obtained from getConnDupFd; VerifyConfig is stubbed (small configuration)",
   "DESIGN.md 15.3/C12")
 
 NOT_APPLICABLE = {
